@@ -22,6 +22,10 @@ pub struct Obs {
 
 pub fn observe(kvs: &[Kv], geom: Geom) -> Result<Obs, String> {
     let (bytes, (ev, rej)) = front::build_raw_counted(geom, 0, kvs)?;
+    observe_bytes(&bytes, kvs, ev, rej)
+}
+
+fn observe_bytes(bytes: &[u8], kvs: &[Kv], ev: u64, rej: u64) -> Result<Obs, String> {
     guard(|| {
         let d = codec::decode(&bytes)?;
         let keys: Vec<Key> = kvs.iter().map(|x| x.0.clone()).collect();
@@ -40,19 +44,41 @@ pub fn observe(kvs: &[Kv], geom: Geom) -> Result<Obs, String> {
 
 pub fn run_case(kvs: &[Kv], geom: Geom) -> Result<Obs, String> {
     let o = observe(kvs, geom)?;
-    let is_set = kvs.iter().all(|x| x.1 == 0);
-    if o.nodes > o.trie {
-        return Err(format!("{} nodes emitted but the prefix trie of the keys has only {}", o.nodes, o.trie));
-    }
-    if o.evictions == 0 && o.rejections == 0 {
-        if o.duplicates > 0 {
-            return Err(format!("cache never evicted, yet {} emitted nodes duplicate an earlier node", o.duplicates));
-        }
-        if is_set && o.nodes != o.minimal_expected {
-            return Err(format!("cache never evicted, yet the set has {} nodes; the minimal acyclic DFA needs {}", o.nodes, o.minimal_expected));
+    judge(&o, kvs, "")?;
+    // the same key sequence through a builder kept in use after rejected calls
+    // (insert path, and for sets the add path): the premise is observed on
+    // that builder's own counters
+    if kvs.len() <= 8 && !kvs.is_empty() {
+        let is_set = kvs.iter().all(|x| x.1 == 0);
+        for use_add in [false, true] {
+            if use_add && !is_set {
+                continue;
+            }
+            let (bytes, stray, (ev, rej)) = front::noisy_build_raw_counted(geom, kvs, use_add)?;
+            if stray {
+                continue; // a rejected call was accepted: C06's business
+            }
+            let on = observe_bytes(&bytes, kvs, ev, rej)?;
+            judge(&on, kvs, if use_add { " (builder kept in use after rejected add calls)" } else { " (builder kept in use after rejected insert calls)" })?;
         }
     }
     Ok(o)
+}
+
+fn judge(o: &Obs, kvs: &[Kv], what: &str) -> Result<(), String> {
+    let is_set = kvs.iter().all(|x| x.1 == 0);
+    if o.nodes > o.trie {
+        return Err(format!("{} nodes emitted but the prefix trie of the keys has only {}{}", o.nodes, o.trie, what));
+    }
+    if o.evictions == 0 && o.rejections == 0 {
+        if o.duplicates > 0 {
+            return Err(format!("cache never evicted, yet {} emitted nodes duplicate an earlier node{}", o.duplicates, what));
+        }
+        if is_set && o.nodes != o.minimal_expected {
+            return Err(format!("cache never evicted, yet the set has {} nodes; the minimal acyclic DFA needs {}{}", o.nodes, o.minimal_expected, what));
+        }
+    }
+    Ok(())
 }
 
 pub fn replay(case: &Value) -> Result<String, String> {
@@ -111,7 +137,7 @@ pub fn corpus_ratio(name: &str) -> Result<(f64, usize, usize, usize), String> {
 pub fn plan(tier: Tier) -> Plan {
     let mut p = Plan::new("C12", "model_checking");
     let thorough = tier.thorough();
-    p.rule = "every key set of U_ab3, U_abc2, U_raw2 as a set and as a map (values i, 7, 3i+1, boundary values) under every cache geometry of {0x0,1x1,1x2,2x1,2x2,1x3,3x3,10000x2}; per build the eviction/rejection counters (hook H2) are read and the nodes come from the independent decoder's tiling (unreachable garbage would count); if no eviction and no rejection happened: no two tiled nodes have the same (final, final output, transitions) and a set has exactly the node count of the minimal acyclic DFA of its keys (bottom-up signature hashing of the trie) minus the unstored empty-final state; always: nodes <= prefix-trie nodes; twin families: two or three equivalent subtrees whose root has 1..256 transitions (across the index threshold), as sets and as maps; corpora clause: realised/achievable sharing > 0.5 on the shipped word/url lists (fixed evaluations, not an enumeration). non-trivial = eviction-free builds with real sharing (nodes < trie nodes)".into();
+    p.rule = "every key set of U_ab3, U_abc2, U_raw2 as a set and as a map (values i, 7, 3i+1, boundary values) under every cache geometry of {0x0,1x1,1x2,2x1,2x2,1x3,3x3,10000x2}; per build the eviction/rejection counters (hook H2) are read and the nodes come from the independent decoder's tiling (unreachable garbage would count); if no eviction and no rejection happened: no two tiled nodes have the same (final, final output, transitions) and a set has exactly the node count of the minimal acyclic DFA of its keys (bottom-up signature hashing of the trie) minus the unstored empty-final state; always: nodes <= prefix-trie nodes; twin families: two or three equivalent subtrees whose root has 1..256 transitions (across the index threshold), as sets and as maps; corpora clause: realised/achievable sharing > 0.5 on the shipped word/url lists (fixed evaluations, not an enumeration). non-trivial = eviction-free builds with real sharing (nodes < trie nodes); for key sets of <= 8 keys the same judgement on the output of a raw builder kept in use after rejected calls (insert path; for sets also the add path), the premise observed on that builder's own counters".into();
     p.assumptions = vec![
         "'equivalent nodes' is checked as identical (final, final output, [(input, output, target address)]); with targets already deduplicated bottom-up this is language equivalence".into(),
         "data/wiki-urls-100000 is an emptied file in this checkout and is skipped".into(),
